@@ -73,6 +73,12 @@ def r171(ctx, api):
     ok = len(cc) == 1 and bool(dd) and rd.defs_reaching(cfg.node_of(dd[0]), 'categories') == {cfg.entry} and \
         rd.defs_reaching(cfg.node_of(cc[0]), 'categories') == {cfg.entry}
     ctx.ob('R17.1', 'api.pre_allocate:same-categories-argument-for-prediction-and-allocation', ok, '', api.loc(f))
+    ov = [s for s in iter_child_stmts(f.body) if isinstance(s, ast.Assign) and norm(s) == 'columns = list(dtypes)']
+    cats0 = [s for s in iter_child_stmts(f.body) if isinstance(s, ast.Assign) and norm(s.targets[0]) == 'cats']
+    ok = len(ov) == 1 and len(cats0) == 1 and cfg.node_of(ov[0]) in rd.defs_reaching(cfg.node_of(cats0[0]), 'columns')
+    ctx.ob('R17.1', 'api.pre_allocate:partition-columns-selected-from-the-final-column-list', ok,
+           'a dtypes override replaces the column list; the partition columns that go into the frame must be chosen from '
+           'that final list', api.loc(cats0[0]) if cats0 else api.loc(f))
     cats = [s for s in iter_child_stmts(f.body) if isinstance(s, ast.Assign) and norm(s.targets[0]) == 'cats']
     ctx.ob('R17.1', 'api.pre_allocate:partition-columns-from-self.cats-restricted-to-requested',
            len(cats) == 1 and norm(cats[0].value) == '{k: v for k, v in self.cats.items() if k in columns}', norm(cats[0]) if cats else '', api.loc(f))
@@ -127,6 +133,8 @@ def r172(ctx, api):
 
 
 def r173(ctx, api):
+    from . import c14
+    c14.r144(ctx, api, ctx.repo['writer'])
     c06.r63(ctx, api)
     c06.r64(ctx, api)
     tp = api.func('ParquetFile.to_pandas')
